@@ -90,6 +90,12 @@ T = {
  'C18-m2': ('C18', 'TestResult.stopTest runs the layers\' testTearDown before restoring the --buffer streams',
             '--buffer, the capture still armed at stopTest (test skipped from its body / setUp, or KeyboardInterrupt) and a layer testTearDown that raises',
             'C18 quick: C18:not-restored|stdout (endings skipThenHookDown / kbintThenHookDown)', 'caught at once'),
+ 'C19-m1': ('C19', 'threadsupport.enumerate() starts from threading.enumerate() and only adds placeholders for unknown running idents (no intersection with sys._current_frames)',
+            'a thread started with _thread.start_new_thread that touches threading.current_thread() (e.g. logs) and has finished before the test ends',
+            'C19 quick: C19:missed, C19:spurious|finished-thread, C19:wrong-test', 'caught at once (worlds have the _thread_ct api variant)'),
+ 'C19-m2': ('C19', '--ignore-new-thread patterns compiled with filter.build_filtering_func (re.search, "!" negation) instead of re.match',
+            'a leaked thread whose name contains an ignore pattern without starting with it (net-ign, xign)',
+            'C19 quick: C19:missed', 'caught at once; patch.diff is rebased onto fix 12a8a7f (same lines), patch.orig.diff is the agent\'s patch against fae7978'),
 }
 
 
